@@ -1289,8 +1289,10 @@ DefinedUntaggedType:
 		 */
 		if($$->expr_type == ASN_CONSTR_SEQUENCE_OF
 		|| $$->expr_type == ASN_CONSTR_SET_OF) {
-			assert(!TQ_FIRST(&($$->members))->constraints);
-			TQ_FIRST(&($$->members))->constraints = $2;
+			if($2) {
+				assert(!TQ_FIRST(&($$->members))->constraints);
+				TQ_FIRST(&($$->members))->constraints = $2;
+			}
 		} else {
 			if($$->constraints) {
 				assert(!$2);
@@ -1312,8 +1314,10 @@ UntaggedType:
 		 */
 		if($$->expr_type == ASN_CONSTR_SEQUENCE_OF
 		|| $$->expr_type == ASN_CONSTR_SET_OF) {
-			assert(!TQ_FIRST(&($$->members))->constraints);
-			TQ_FIRST(&($$->members))->constraints = $2;
+			if($2) {
+				assert(!TQ_FIRST(&($$->members))->constraints);
+				TQ_FIRST(&($$->members))->constraints = $2;
+			}
 		} else {
 			if($$->constraints) {
 				assert(!$2);
@@ -1336,8 +1340,10 @@ MaybeIndirectTaggedType:
 		 */
 		if($$->expr_type == ASN_CONSTR_SEQUENCE_OF
 		|| $$->expr_type == ASN_CONSTR_SET_OF) {
-			assert(!TQ_FIRST(&($$->members))->constraints);
-			TQ_FIRST(&($$->members))->constraints = $3;
+			if($3) {
+				assert(!TQ_FIRST(&($$->members))->constraints);
+				TQ_FIRST(&($$->members))->constraints = $3;
+			}
 		} else {
 			if($$->constraints) {
 				assert(!$2);
